@@ -6,7 +6,7 @@ From IndModel Require Import Base Estimator.
 From IndGen Require Import Constants.
 From IndProofs Require Import EstimatorProofs EstimatorBarProofs.
 From Coq Require Import Reals Lra Lia ZArith NArith List Bool.
-From Flocq Require Import Core.Zaux Core.Raux Core.Defs Core.Generic_fmt Core.FLT IEEE754.BinarySingleNaN.
+From Flocq Require Import Core Sterbenz BinarySingleNaN.
 Import ListNotations.
 
 (** * NaN at the instant of a recorded backwards seek (no reset anywhere in the history):
@@ -55,4 +55,177 @@ Proof.
   intros p b now Hs Hd H1 H2.
   apply (eta_no_rate (FL.arp p)).
   exact (fl_rate_zero_when_weight_zero p (b_est b) now Hs Hd H1 H2).
+Qed.
+
+(** * Float-side sanity: the rate is finite and non-negative in binary64
+    Toolbox: round-to-nearest-even in binary64, monotone, fixes powers of two. *)
+Notation fexp64 := (FLT_exp (-1074) 53).
+Notation RN := (round radix2 fexp64 ZnearestE).
+Notation fmt := (generic_format radix2 fexp64).
+Notation F := FL.F.
+Notation fadd := (@Bplus 53 1024 FL.Hp FL.Hm mode_NE).
+Notation fsub := (@Bminus 53 1024 FL.Hp FL.Hm mode_NE).
+Notation fmul := (@Bmult 53 1024 FL.Hp FL.Hm mode_NE).
+Notation fdiv := (@Bdiv 53 1024 FL.Hp FL.Hm mode_NE).
+
+#[local] Instance prec_gt_0_53 : Prec_gt_0 53 := FL.Hp.
+#[local] Instance valid_fexp64 : Valid_exp fexp64 := FLT_exp_valid (-1074) 53.
+#[local] Instance monotone_fexp64 : Monotone_exp fexp64 := FLT_exp_monotone (-1074) 53.
+
+Lemma fmt_bpow : forall k, (-1074 <= k)%Z -> fmt (bpow radix2 k).
+Proof. intros k Hk. apply generic_format_FLT_bpow; [exact FL.Hp | exact Hk]. Qed.
+
+Lemma fmt_B2R : forall x : F, fmt (B2R x).
+Proof. intros x. apply (generic_format_B2R 53 1024 x). Qed.
+
+Lemma RN_le_bpow : forall x k, (-1074 <= k)%Z -> x <= bpow radix2 k -> RN x <= bpow radix2 k.
+Proof. intros x k Hk H. apply round_le_generic; auto with typeclass_instances. now apply fmt_bpow. Qed.
+
+Lemma RN_ge_bpow : forall x k, (-1074 <= k)%Z -> bpow radix2 k <= x -> bpow radix2 k <= RN x.
+Proof. intros x k Hk H. apply round_ge_generic; auto with typeclass_instances. now apply fmt_bpow. Qed.
+
+Lemma RN_ge_0 : forall x, 0 <= x -> 0 <= RN x.
+Proof.
+  intros x H. apply round_ge_generic; auto with typeclass_instances. apply generic_format_0.
+Qed.
+
+Lemma RN_le_fmt : forall x y, fmt y -> x <= y -> RN x <= y.
+Proof. intros x y Hy H. apply round_le_generic; auto with typeclass_instances. Qed.
+
+Lemma no_overflow64 : forall x, 0 <= x <= bpow radix2 1023 ->
+  Rlt_bool (Rabs (round radix2 (SpecFloat.fexp 53 1024) (round_mode mode_NE) x)) (bpow radix2 1024) = true.
+Proof.
+  intros x [H0 H1]. apply Rlt_bool_true.
+  change (SpecFloat.fexp 53 1024) with fexp64. cbn [round_mode].
+  rewrite Rabs_pos_eq by now apply RN_ge_0.
+  apply Rle_lt_trans with (bpow radix2 1023); [apply RN_le_bpow; [lia | exact H1]|].
+  apply bpow_lt. lia.
+Qed.
+
+(** finite, non-negative and at most 2^k *)
+Definition bnd (x : F) (k : Z) : Prop := is_finite x = true /\ 0 <= B2R x <= bpow radix2 k.
+
+Lemma bnd_weaken : forall x k k', bnd x k -> (k <= k')%Z -> bnd x k'.
+Proof.
+  intros x k k' (Hf & H0 & H1) Hk. split; [exact Hf|]. split; [exact H0|].
+  apply Rle_trans with (1 := H1). now apply bpow_le.
+Qed.
+
+Lemma fmul_bnd : forall a b ka kb, bnd a ka -> bnd b kb -> (-1074 <= ka + kb <= 1023)%Z ->
+  bnd (fmul a b) (ka + kb) /\ B2R (fmul a b) = RN (B2R a * B2R b).
+Proof.
+  intros a b ka kb (Fa & Ha0 & Ha1) (Fb & Hb0 & Hb1) Hk.
+  assert (Hp : 0 <= B2R a * B2R b <= bpow radix2 (ka + kb)).
+  { split; [now apply Rmult_le_pos|]. rewrite bpow_plus. apply Rmult_le_compat; assumption. }
+  pose proof (Bmult_correct 53 1024 FL.Hp FL.Hm mode_NE a b) as H.
+  rewrite no_overflow64 in H.
+  - destruct H as (H1 & H2 & _). rewrite Fa, Fb in H2.
+    change (SpecFloat.fexp 53 1024) with fexp64 in H1. cbn [round_mode] in H1.
+    split; [|exact H1]. split; [exact H2|]. rewrite H1. split.
+    + apply RN_ge_0, Hp.
+    + apply RN_le_bpow; [lia | apply Hp].
+  - split; [apply Hp|]. apply Rle_trans with (1 := proj2 Hp). apply bpow_le. lia.
+Qed.
+
+Lemma fdiv_bnd : forall a b ka kb, bnd a ka -> is_finite b = true -> bpow radix2 kb <= B2R b ->
+  (-1074 <= ka - kb <= 1023)%Z ->
+  bnd (fdiv a b) (ka - kb) /\ B2R (fdiv a b) = RN (B2R a / B2R b).
+Proof.
+  intros a b ka kb (Fa & Ha0 & Ha1) Fb Hb Hk.
+  assert (Hb0 : 0 < B2R b) by (apply Rlt_le_trans with (2 := Hb); apply bpow_gt_0).
+  assert (Hq : 0 <= B2R a / B2R b <= bpow radix2 (ka - kb)).
+  { split; [apply Rmult_le_pos; [exact Ha0 | left; now apply Rinv_0_lt_compat]|].
+    unfold Zminus. rewrite bpow_plus, bpow_opp. unfold Rdiv.
+    apply Rmult_le_compat; try assumption.
+    - left. now apply Rinv_0_lt_compat.
+    - apply Rinv_le; [apply bpow_gt_0 | exact Hb]. }
+  pose proof (Bdiv_correct 53 1024 FL.Hp FL.Hm mode_NE a b ltac:(lra)) as H.
+  rewrite no_overflow64 in H.
+  - destruct H as (H1 & H2 & _). rewrite Fa in H2.
+    change (SpecFloat.fexp 53 1024) with fexp64 in H1. cbn [round_mode] in H1.
+    split; [|exact H1]. split; [exact H2|]. rewrite H1. split.
+    + apply RN_ge_0, Hq.
+    + apply RN_le_bpow; [lia | apply Hq].
+  - split; [apply Hq|]. apply Rle_trans with (1 := proj2 Hq). apply bpow_le. lia.
+Qed.
+
+Lemma fadd_bnd : forall a b k, is_finite a = true -> is_finite b = true ->
+  0 <= B2R a -> 0 <= B2R b -> B2R a + B2R b <= bpow radix2 k -> (-1074 <= k <= 1023)%Z ->
+  bnd (fadd a b) k /\ B2R (fadd a b) = RN (B2R a + B2R b).
+Proof.
+  intros a b k Fa Fb Ha Hb Hs Hk.
+  pose proof (Bplus_correct 53 1024 FL.Hp FL.Hm mode_NE a b Fa Fb) as H.
+  rewrite no_overflow64 in H.
+  - destruct H as (H1 & H2 & _).
+    change (SpecFloat.fexp 53 1024) with fexp64 in H1. cbn [round_mode] in H1.
+    split; [|exact H1]. split; [exact H2|]. rewrite H1. split.
+    + apply RN_ge_0. lra.
+    + apply RN_le_bpow; [lia | exact Hs].
+  - split; [lra|]. apply Rle_trans with (1 := Hs). apply bpow_le. lia.
+Qed.
+
+Definition fone64 : F := FL.of_Z 1 false.
+Lemma fone64_correct : is_finite fone64 = true /\ B2R fone64 = 1.
+Proof. split; [reflexivity|]. vm_compute. lra. Qed.
+
+(** 1 - w for a weight w in [0,1] *)
+Lemma fsub_one_bnd : forall w, bnd w 0 ->
+  bnd (fsub fone64 w) 0 /\ B2R (fsub fone64 w) = RN (1 - B2R w).
+Proof.
+  intros w (Fw & H0 & H1). change (bpow radix2 0) with 1 in H1.
+  destruct fone64_correct as [F1 E1].
+  pose proof (Bminus_correct 53 1024 FL.Hp FL.Hm mode_NE fone64 w F1 Fw) as H.
+  rewrite E1 in H.
+  rewrite no_overflow64 in H.
+  - destruct H as (H2 & H3 & _).
+    change (SpecFloat.fexp 53 1024) with fexp64 in H2. cbn [round_mode] in H2.
+    split; [|exact H2]. split; [exact H3|]. rewrite H2. split.
+    + apply RN_ge_0. lra.
+    + apply RN_le_bpow; [lia|]. change (bpow radix2 0) with 1. lra.
+  - split; [lra|]. apply Rle_trans with 1; [lra|]. change 1 with (bpow radix2 0). apply bpow_le. lia.
+Qed.
+
+(** a binary64 number below 1 is at most 1 - 2^-53, hence 1 - w >= 2^-53 *)
+Lemma fmt_lt1 : forall x, fmt x -> x < 1 -> x <= 1 - bpow radix2 (-53).
+Proof.
+  intros x Fx H.
+  replace (1 - bpow radix2 (-53)) with (pred radix2 fexp64 1).
+  - apply pred_ge_gt; auto with typeclass_instances.
+    change 1 with (bpow radix2 0). apply fmt_bpow. lia.
+  - change 1 with (bpow radix2 0). rewrite pred_bpow. reflexivity.
+Qed.
+
+Lemma fsub_one_pos : forall w, bnd w 0 -> B2R w < 1 -> bpow radix2 (-53) <= B2R (fsub fone64 w).
+Proof.
+  intros w Hw Hlt. destruct (fsub_one_bnd w Hw) as [_ E]. rewrite E.
+  apply RN_ge_bpow; [lia|]. assert (H := fmt_lt1 (B2R w) (fmt_B2R w) Hlt). lra.
+Qed.
+
+(** [n as f64] for an unsigned 64-bit n *)
+Lemma of_int_bnd : forall p n, (n < U64)%N ->
+  bnd (of_int (FL.arp p) n) 64 /\ B2R (of_int (FL.arp p) n) = RN (IZR (Z.of_N n)).
+Proof.
+  intros p n Hn. cbn [of_int FL.arp]. unfold FL.of_Z.
+  pose proof (binary_normalize_correct 53 1024 FL.Hp FL.Hm mode_NE (Z.of_N n) 0 false) as H.
+  cbv zeta in H.
+  assert (E : F2R (Float radix2 (Z.of_N n) 0) = IZR (Z.of_N n)) by (unfold F2R; simpl; ring).
+  rewrite E in H.
+  assert (Hr : 0 <= IZR (Z.of_N n) <= bpow radix2 64).
+  { split; [apply IZR_le; lia|]. change (bpow radix2 64) with (IZR (2 ^ 64)). apply IZR_le.
+    unfold U64 in Hn. lia. }
+  rewrite no_overflow64 in H.
+  - destruct H as (H1 & H2 & _).
+    change (SpecFloat.fexp 53 1024) with fexp64 in H1. cbn [round_mode] in H1.
+    split; [|exact H1]. split; [exact H2|]. rewrite H1. split.
+    + apply RN_ge_0, Hr.
+    + apply RN_le_bpow; [lia | apply Hr].
+  - split; [apply Hr|]. apply Rle_trans with (1 := proj2 Hr). apply bpow_le. lia.
+Qed.
+
+Lemma of_int_range : forall p n lo hi, (n < U64)%N -> (-1074 <= lo)%Z -> (-1074 <= hi)%Z ->
+  bpow radix2 lo <= IZR (Z.of_N n) <= bpow radix2 hi ->
+  bpow radix2 lo <= B2R (of_int (FL.arp p) n) <= bpow radix2 hi.
+Proof.
+  intros p n lo hi Hn Hlo Hhi [H1 H2]. destruct (of_int_bnd p n Hn) as [_ E]. rewrite E.
+  split; [now apply RN_ge_bpow | now apply RN_le_bpow].
 Qed.
